@@ -81,6 +81,10 @@ type wk struct {
 	nodes []*wnode // n1 (bootstrap leader), n2 voter, n3 non-voter
 	rows  int64    // acknowledged inserts
 	res   *scnResult
+	// consumed by the next linearizable query: hook point to stall at and what
+	// to do while stalled (runs on the querying goroutine, inside Store.Query)
+	nextStall   string
+	nextDisturb func()
 }
 
 func (w *wk) note(format string, a ...any) {
@@ -250,10 +254,21 @@ func (w *wk) query(n *wnode, phase, level string, fresh time.Duration, strict, f
 	if full {
 		o.B = takeSample(n.Node)
 	}
+	var rec *linRec
+	if level == "linearizable" {
+		// terms seen at the hook points inside the read-index path, on this goroutine
+		rec = &linRec{node: n, stall: w.nextStall, disturb: w.nextDisturb}
+		g := goid()
+		linRecs.Store(g, rec)
+		defer linRecs.Delete(g)
+	}
 	ev0 := n.events.Load()
 	o.LeaderB = n.Store.IsLeader()
 	rows, eff, _, err := n.Store.Query(context.Background(), qr)
 	o.LeaderA = n.Store.IsLeader()
+	if rec != nil {
+		o.TermCI, o.TermVL = rec.termCI, rec.termVL
+	}
 	if full {
 		o.A = takeSample(n.Node)
 	}
@@ -312,7 +327,12 @@ func runScenario(caseNo int, seed int64, tier, dir string) (res scnResult) {
 			res.SetupErr = fmt.Sprintf("panic: %v", p)
 		}
 	}()
+	if caseNo >= linTermBase {
+		kind = "lin-term-change"
+		res.Kind = kind
+	}
 	installHook()
+	installLinHooks()
 	defer os.RemoveAll(dir)
 	cl := hcluster.New(dir)
 	w := &wk{cl: cl, res: &res}
@@ -407,6 +427,8 @@ func runScenario(caseNo int, seed int64, tier, dir string) (res scnResult) {
 		scnRestart(w, r, target)
 	case "lin-apply":
 		scnLinApply(w, r, n1)
+	case "lin-term-change":
+		scnLinTerm(w, r, caseNo, seed, n1, n2)
 	}
 	return res
 }
